@@ -107,7 +107,7 @@ fn read_color(slot: &Node) -> Option<String> {
 
 fn format_hex(raw: &str) -> String {
     let trimmed = raw.trim_start_matches('#');
-    let rgb = if trimmed.len() == 8 {
+    let rgb = if trimmed.len() == 8 && trimmed.is_char_boundary(2) {
         &trimmed[2..]
     } else {
         trimmed
